@@ -43,6 +43,8 @@ inductive Tok
 
 inductive Err
   | st (s : Status)
+  /-- an allocation sized by a declared count alone was granted and initialised (more than 300 MB touched) -/
+  | bloat
   | unmodelled
   deriving DecidableEq, Repr, Inhabited
 
@@ -53,6 +55,7 @@ def ub {α : Type} : R α := .error (.st .undefined)
 
 def Err.name : Err → String
   | .st s => s.name
+  | .bloat => "bloat"
   | .unmodelled => "unmodelled"
 
 def Tok.isWs : Tok → Bool
@@ -280,13 +283,12 @@ def rdVerts3 : Nat → List Tok → R (List Vertex × List Tok)
 def cnt (n : Int) : Nat := n.toNat
 
 /-- `ref_node_add` of `nnode` vertices before anything is read (`.tri`, `.fgrid`): the vertex arrays grow to the declared
-    count, whatever the file holds.  15 reals, a global, two integers per vertex: above the cap the `realloc` fails
-    (REF_NULL); the harness reports a touched size above 300 MB as `bloat`, which the model carries as `null` too. -/
-def nodeBytes : Nat := 15 * 8 + 8 + 8
-def preallocLimit : Nat := 300 * 1024 * 1024 / nodeBytes
+    count, whatever the file holds — about 150 bytes per vertex (15 reals, global, sorted pair, part, age) and geometric
+    growth: from about a million declared vertices on more than 300 MB are touched (`bloat`). -/
+def preallocLimit : Nat := 1000000
 
 def prealloc (fx : Fix) (nnode : Int) : R Unit :=
-  if ¬ fx.prealloc ∧ (preallocLimit : Int) < nnode then .error (.st .null) else .ok ()
+  if ¬ fx.prealloc ∧ (preallocLimit : Int) < nnode then .error .bloat else .ok ()
 
 /-! ## `.ugrid` (ASCII AFLR3), `.tri`, `.fgrid`, `.surf` -/
 
@@ -942,8 +944,9 @@ def mshBlocks (m : TMesh) : List Tok :=
   let ne := gs.filter fun g => !g.2.2.2.2.isEmpty
   ((List.range ne.length).zip ne).flatMap fun (i, g) => mshBlock (i + 1) g.1 g.2.1 g.2.2.1 g.2.2.2.1 g.2.2.2.2
 
-/-- ref_export_msh (for a grid without removed vertex slots: the cell nodes are written as stored, without the
-    renumbering the vertex block uses) -/
+/-- ref_export_msh.  The vertex block is compacted (`m.nodes` = the valid vertices in order) but the cell nodes are
+    written AS STORED (`nodes[cell_node] + 1`, not `o2n[nodes[cell_node]] + 1`): `m`'s cells carry the stored vertex
+    numbers — for a grid without removed vertex slots these are the positions in `m.nodes` -/
 def encodeMsh (m : TMesh) : List Tok :=
   let n : Nat := m.nodes.length
   let groups := [m.edg, m.tri, m.qua, m.tet, m.pyr, m.pri, m.hex]
